@@ -146,6 +146,10 @@ def check(ctx):
               "resolve_types_lazily calls add_dependencies(type_name, deps) for every type it resolves, under no guard beyond successful resolution, "
               "with deps harvested by extract_type_names from every field of that type",
               "a type without recorded edges is treated as independent and may be emitted before what it references")
+    from c07 import check_harvester_normalisation
+    check_harvester_normalisation(S, r4)
+    for v in r4.violations:
+        v.rule = r4.id
     rl = P.find("CommandAnalyzer::resolve_types_lazily")
     if not rl:
         r4.bad(V(r4.id, "<anchor>", "missing:resolve_types_lazily", "anchor not found"))
